@@ -18,7 +18,7 @@ META = {
     "level_text": "Exhaustive on the models. On the code: every well-formed chain of <=4 of the 9 plugin kinds (3062 chains, "
                   "thorough) or a subset covering every kind alone, every ordered adjacent pair and one chain with all kinds "
                   "(quick), each on a synthetic stream mixing matching and non-matching traffic for every plugin (FIBEX message "
-                  "ids, SOME/IP service, CAN frames, Muniic interface, SYS/JOUR, FLST/FLDA/FLFI, control messages, arbitrary "
+                  "ids in every extended-header variant - absent, FIBEX ids, other ids, zero APID and/or CTID, other type/noar -, SOME/IP service, CAN frames, Muniic interface, SYS/JOUR, FLST/FLDA/FLFI, control messages, arbitrary "
                   "payloads, several ECU/APID/CTID populations) and on slices of the repository's example files; anonymisation "
                   "additionally through `adlt convert --anon -o` on example files and with lifecycle tables of original vs. "
                   "anonymised streams.",
@@ -35,6 +35,14 @@ META = {
 
 KINDS = ["nonverbose", "someip", "can", "muniic", "rewrite", "ft_keep", "ft_drop", "export", "anon"]
 KF = ["KF_C19_AnonShortCtrlResponse"]
+# traffic that matches a decoder, per extended-header variant (labels written by the driver into the `in` events); every
+# one must have been decoded (text changed) by the decoder running alone - otherwise the run is vacuous for that path
+VARIANTS = ["nonverbose:absent", "nonverbose:fibex_ids", "nonverbose:other_ids", "nonverbose:zero_apid",
+            "nonverbose:zero_apid_ctid", "nonverbose:zero_ctid", "nonverbose:other_type_noar",
+            "someip:apid", "someip:zero_apid", "someip:other_apid", "someip:other_noar",
+            "can:apid", "can:zero_apid", "can:other_apid", "can:other_noar",
+            "muniic:apid", "muniic:zero_apid", "muniic:other_apid", "muniic:other_type", "muniic:other_level",
+            "rewrite:info", "rewrite:warn", "rewrite:apptrace", "rewrite:noar2"]
 
 
 def pick_chains_quick(chains, rnd):
@@ -197,7 +205,8 @@ def check(ctx):
     hits = {"cases": 0, "in": 0, "out": 0, "dropped": 0, "panic": 0, "lcs": 0, "lcs_multi_lifecycle": 0, "lcs_multi_ecu": 0,
             "text_changed": 0, "ext_filled": 0, "ts_changed": 0, "ids_changed": 0, "pay_changed": 0, "per_kind_text_changed": {},
             "per_kind_chains": {}, "stream_kinds": {}, "flda_inputs": 0, "flda_dropped_cases": 0, "chain_lengths": {},
-            "lc_skipped": sum(i["lc_skipped"] for _, i in infos)}
+            "lc_skipped": sum(i["lc_skipped"] for _, i in infos),
+            "matching_variant_inputs": {}, "matching_variant_decoded_alone": {}}
     distinct = set()
     validated = 0
     st = None
@@ -232,7 +241,12 @@ def check(ctx):
             nontrivial = False
             if len(ins) == len(outs):
                 for a, b in zip(ins, outs):
+                    tag = a.get("tag", "")
                     a, b = a["vec"], b["vec"]
+                    if tag:
+                        hits["matching_variant_inputs"][tag] = hits["matching_variant_inputs"].get(tag, 0) + 1
+                        if h["chain"] == [tag.split(":")[0]] and a["text"] != b["text"]:
+                            hits["matching_variant_decoded_alone"][tag] = hits["matching_variant_decoded_alone"].get(tag, 0) + 1
                     if a["text"] != b["text"]:
                         hits["text_changed"] += 1
                         nontrivial = True
@@ -283,6 +297,9 @@ def check(ctx):
     # vacuity: every decoder must have changed some text when alone, header fill / timestamp rewrite / FLDA drop / pseudonyms
     # / multi-lifecycle comparisons must have happened
     need_text = [kd for kd in ("nonverbose", "someip", "can", "muniic", "rewrite") if hits["per_kind_text_changed"].get(kd, 0) == 0]
+    need_var = [t for t in VARIANTS if hits["matching_variant_decoded_alone"].get(t, 0) == 0]
+    if need_var:
+        raise c.ToolError("vacuous run: matching traffic not decoded for header variants %s" % need_var)
     if need_text or not hits["ext_filled"] or not hits["ts_changed"] or not hits["flda_dropped_cases"] or not hits["ids_changed"] \
             or not hits["lcs_multi_lifecycle"] or not hits["lcs_multi_ecu"] or any(hits["per_kind_chains"].get(kd, 0) == 0 for kd in KINDS):
         raise c.ToolError("vacuous run: %s %s" % (need_text, hits))
